@@ -127,3 +127,22 @@ Theorem C01_pattern_iterate : forall sp cons fuel rrp, dims_ok sp -> forall queu
   emit_ok sp cons p /\ Forall (in_box sp) queue' /\ is_suffix t' t /\ 0 < c.
 Proof. exact pattern_iterate_ok. Qed.
 Print Assumptions C01_pattern_iterate.
+
+(* downhill simplex: whatever float vector a reflection / expansion / contraction / shrink step computes (any alpha, gamma, beta,
+   sigma; NaN excluded), the emitted position is conv2pos of it -- in the box -- or move_climb's feasible neighbour *)
+Theorem C01_simplex_iterate : forall sp cons fuel, dims_ok sp -> forall xs t p t' c, length xs = length sp ->
+  Forall (fun x => x <> XNaN) xs -> nan_free t ->
+  vec_iterate sp cons fuel xs t = Ok (p, t', c) -> emit_ok sp cons p /\ is_suffix t' t /\ 0 < c.
+Proof. exact vec_iterate_ok. Qed.
+Print Assumptions C01_simplex_iterate.
+
+(* Powell's method / DIRECT: the candidate (a point of the inner line search / the centre of a sub-space; an oracle position that the
+   correspondence unit checks to lie in the box on every observed step) is returned when feasible, else replaced by move_climb *)
+Theorem C01_powell_iterate : forall sp cons fuel rrp, dims_ok sp -> forall cand t p t' c, in_box_b sp cand = true -> nan_free t ->
+  powell_iterate sp cons fuel rrp cand t = Ok (p, t', c) -> emit_ok sp cons p /\ is_suffix t' t.
+Proof. exact powell_iterate_ok. Qed.
+Print Assumptions C01_powell_iterate.
+Theorem C01_direct_iterate : forall sp cons fuel, dims_ok sp -> forall cand t p t' c, in_box_b sp cand = true -> nan_free t ->
+  cand_iterate sp cons fuel cand t = Ok (p, t', c) -> emit_ok sp cons p /\ is_suffix t' t /\ 0 < c.
+Proof. exact cand_iterate_ok. Qed.
+Print Assumptions C01_direct_iterate.
